@@ -42,6 +42,10 @@ def main(ctx):
             scheds = range(4) if thorough else [(mi + hi) % 2, 2 + (mi + hi) % 2]
             for s in scheds:
                 jobs.append((method, list(how), s))
+    # two observers (a thread blocked in join(), another polling) at the moment the child ends
+    for method in ['fork', 'spawn', 'forkserver']:
+        for how in (hs if thorough else [('exit', 3), ('signal', int(signal.SIGTERM)), ('return',)]):
+            jobs.append((method, list(how), 4))
     # real children are started from a fresh interpreter in its own session
     import json
     from lib import sandbox
